@@ -150,9 +150,9 @@ func cmdTables(args []string) {
 			for c := -2; c <= 9; c++ {
 				sym := symOf(mm.Fam, mm.Idx, c)
 				rec.Add(fmt.Sprintf(`"k":"print","fam":%q,"m":%q,"c":%q,"str":%s`, mm.Fam, mm.Name, sym, jstr(asciiSafe(mm.Str(c)))), "String()")
-			if mm.Defined != nil {
-				rec.Add(fmt.Sprintf(`"k":"isdefined","fam":%q,"m":%q,"c":%q,"val":%t`, mm.Fam, mm.Name, sym, mm.Defined(c)), "IsDefined()")
-			}
+				if mm.Defined != nil {
+					rec.Add(fmt.Sprintf(`"k":"isdefined","fam":%q,"m":%q,"c":%q,"val":%t`, mm.Fam, mm.Name, sym, mm.Defined(c)), "IsDefined()")
+				}
 				if sym != "?" && sym[0] != '#' {
 					defd = append(defd, fmt.Sprintf(`[%q,%t]`, sym, mm.Pred(c)))
 					for _, wo := range mm.Weights(c) {
@@ -184,7 +184,7 @@ func cmdTables(args []string) {
 		}
 		return fmt.Sprintf("#%d", c)
 	}
-	vprobes := append(probes, "3.0", "3.1", "3", "3.", "3.2", "3.10", "3.00", "2.0", "4.0", "v3.1", " 3.1", "3.1 ", "3,1", "3.1.0", "31", "")
+	vprobes := append(probes, "3.0", "3.1", "3", "3.", "3.2", "3.10", "3.00", "2.0", "4.0", "v3.1", " 3.1", "3.1 ", "3,1", "3.1.0", "31", "", "3.01", "3.00", "3.001", "3.+1", "3.+0", "3.-0", "+3.1", "3.1e0", "3.1.", "03.1", "3.１", "3.1\x00", "0x3.1", "3_1", "3.1-rc", "3.0 ", "3.O")
 	for _, s := range vprobes {
 		v, err := m3.GetVersion("CVSS:" + s)
 		got := verSym(int(v))
